@@ -748,6 +748,13 @@ func checkTokenTree(c *core.Ctx, p *load.Prog) {
 			for _, s := range x.List {
 				visit(s, env)
 			}
+		default:
+			// an add inside any other statement (a range over a table of
+			// tokens, an if): the tree read off the literal adds would be
+			// incomplete
+			if n != nil && containsCall(n, func(call *ast.CallExpr) bool { return isMethodCall(call, "tt", "add") }) {
+				undecided = true
+			}
 		}
 	}
 	visit(fd.Body, map[string][2]int{})
